@@ -1,5 +1,6 @@
 import NitroVerif.Lemmas.CheckTsValue
 import NitroVerif.Lemmas.CheckTsRec
+import NitroVerif.Lemmas.CheckTsUnique
 /-!
 # C05 — schema `check` verdict is exact on the implemented type-system rules
 
@@ -9,9 +10,13 @@ correspondence stream of `harness/src/bin/c05.rs`); specification: `NitroVerif/S
 
 `checkSchema T = []` is "the real check accepts the resolved document `T`" (built-ins are part of `T`).
 Each `C05_sound_<rule>` says: an accepted document satisfies the rule as the GraphQL specification states
-it. Rules whose statement needs "the type named n" to be unambiguous carry the hypothesis
-`uniqueTypeNames T` (the checker consults the LAST definition of a name where the schema view has the
-FIRST; they agree when type names are unique, which the extension resolver guarantees per kind only).
+it. Rules whose statement needs "the type named n" to be unambiguous need `uniqueTypeNames T` (the checker
+consults the LAST definition of a name where the schema view has the FIRST; they agree when type names are
+unique). Since fix 8cdbacf the checker itself reports a repeated type name (`check_unique_names`, section
+"unique names" below), so `uniqueTypeNames T` FOLLOWS from acceptance; what remains as a hypothesis of those rules
+is `builtinTypeNamesDistinct T` — the built-in-position definitions, which are data of `T`, do not repeat a name
+among themselves (true of the constant list `generate_builtins()`; the checker never reports a clash between two
+built-in positions).
 -/
 namespace NitroVerif.CheckTs
 open NitroVerif.Gql NitroVerif.ValidTs
@@ -117,6 +122,88 @@ theorem C05_sound_uniqueTypeDefs (T : TsDoc) (h : dupOriginal? T = none) : Holds
 
 example : dupOriginal? sampleSchema = none := by decide
 
+/-! ## unique names (`check_unique_names`, fix 8cdbacf) -/
+
+/-- **Type names are unique across kinds.** In an accepted document (1) no two type definitions written by the
+    user — of whatever kinds: `type A {…}  input A {…}` — share a name, (2) no user type definition takes the
+    name of a built-in-position type definition (`enum Int {…}` next to the built-in scalar `Int`), and hence
+    (3) when the built-in-position definitions do not repeat a name among themselves, ALL type names of the document
+    are pairwise distinct (`uniqueTypeNames`, the specification's §3.3 rule). -/
+theorem C05_unique_type_names (T : TsDoc) (h : checkSchema T = []) :
+    userTypeNamesUnique T = true ∧ builtinTypeNamesNotTaken T = true ∧
+    (builtinTypeNamesDistinct T = true → uniqueTypeNames T = true) := by
+  obtain ⟨h1, h2⟩ := typeIdentsOk_of_accepted h
+  exact ⟨(noDup_iff_nodup _).mpr h1, all_of_disjoint h2, uniqueTypeNames_of_accepted h⟩
+
+/-- a document with built-in-position scalars, a user type and a re-declared built-in directive: accepted, the
+    side conditions used below hold -/
+def sampleWithBuiltins : TsDoc :=
+  [.directiveDef { name := "deprecated", locations := ["FIELD_DEFINITION"] },
+   .typeDef { kind := .object, name := "Query", fields := [{ name := "a", ty := .named "Int" {}, dirs := [{ name := "deprecated" }] }] },
+   .typeDef { kind := .scalar, name := "Int", namePos := { builtin := true } },
+   .typeDef { kind := .scalar, name := "String", namePos := { builtin := true } },
+   .directiveDef { name := "deprecated", namePos := { builtin := true }, locations := ["FIELD_DEFINITION", "ENUM_VALUE"] }]
+
+example : checkSchema sampleWithBuiltins = [] ∧ builtinTypeNamesDistinct sampleWithBuiltins = true ∧
+    builtinDirectivesLast sampleWithBuiltins = true ∧ uniqueTypeNames sampleWithBuiltins = true := by decide
+
+/-- **The user's directive names are unique** — in an accepted document in which no built-in-position directive
+    definition precedes a user definition of the same directive (`builtinDirectivesLast`: the CLI appends the
+    built-ins after the user's definitions and the extension resolver keeps directive definitions in order).
+    Re-declaring a built-in directive is allowed by the code and is not excluded here. -/
+theorem C05_unique_directive_names_partial (T : TsDoc) (h : checkSchema T = [])
+    (hl : builtinDirectivesLast T = true) : userDirectiveNamesUnique T = true :=
+  userDirectiveNamesUnique_of_accepted h hl
+
+/-- … and with built-in directives that are pairwise distinct and not re-declared, ALL directive names are pairwise
+    distinct (`uniqueDirectiveNames`, the specification's §3.13 rule). -/
+theorem C05_unique_directive_names_all (T : TsDoc) (h : checkSchema T = [])
+    (hb : builtinDirectiveNamesDistinct T = true) (hr : builtinDirectivesNotRedeclared T = true) :
+    uniqueDirectiveNames T = true :=
+  uniqueDirectiveNames_of_accepted h hb hr
+
+example : builtinDirectiveNamesDistinct sampleSchema = true ∧ builtinDirectivesNotRedeclared sampleSchema = true ∧
+    builtinDirectiveNamesDistinct sampleWithBuiltins = true ∧ builtinDirectivesNotRedeclared sampleWithBuiltins = false := by
+  decide
+
+/-- The full statement `checkSchema T = [] → userDirectiveNamesUnique T` is FALSE of the code (as a function of an
+    arbitrary document): `check_unique_names` compares a definition with the FIRST earlier identifier of its name
+    only, and a (built-in, user) pair of directives is not reported — so behind a built-in-position `@d` two user
+    definitions of `@d` pass. Not reachable through the CLI (built-ins come last). -/
+theorem C05_unique_directive_names_counterexample :
+    let T : TsDoc := [.directiveDef { name := "d", namePos := { builtin := true }, locations := ["OBJECT"] },
+                      .directiveDef { name := "d", namePos := { line := 1 }, locations := ["OBJECT"] },
+                      .directiveDef { name := "d", namePos := { line := 2 }, locations := ["OBJECT"] }]
+    checkSchema T = [] ∧ userDirectiveNamesUnique T = false ∧ builtinDirectivesLast T = false := by decide
+
+/-- **`check_unique_names` is exact on the user's side** (completeness of the new rule alone): if the user's type
+    names are pairwise distinct and none is the name of a built-in-position type, and the user's directive names are
+    pairwise distinct, `check_unique_names` reports nothing — whatever the built-ins are; in particular a user
+    re-declaration of a built-in directive gets no diagnostic. -/
+theorem C05_unique_names_complete (T : TsDoc) (h1 : userTypeNamesUnique T = true)
+    (h2 : builtinTypeNamesNotTaken T = true) (h3 : userDirectiveNamesUnique T = true) : checkUniqueNames T = [] :=
+  checkUniqueNames_nil_of_user h1 h2 h3
+
+example : userTypeNamesUnique sampleWithBuiltins = true ∧ builtinTypeNamesNotTaken sampleWithBuiltins = true ∧
+    userDirectiveNamesUnique sampleWithBuiltins = true := by decide
+
+/-- the three fault classes are reported, at the user's identifier: the later of two user types of different kinds;
+    the user type that takes a built-in scalar's name, whether it comes before or after the built-in; the later of
+    two user directives -/
+theorem C05_duplicate_names_reported :
+    checkUniqueNames [.typeDef { kind := .object, name := "A", namePos := { line := 1 } },
+                      .typeDef { kind := .input, name := "A", namePos := { line := 2 } }] =
+      [(.DuplicatedName, { line := 2 })] ∧
+    checkUniqueNames [.typeDef { kind := .enum, name := "Int", namePos := { line := 1 } },
+                      .typeDef { kind := .scalar, name := "Int", namePos := { builtin := true } }] =
+      [(.DuplicatedName, { line := 1 })] ∧
+    checkUniqueNames [.typeDef { kind := .scalar, name := "Int", namePos := { builtin := true } },
+                      .typeDef { kind := .enum, name := "Int", namePos := { line := 1 } }] =
+      [(.DuplicatedName, { line := 1 })] ∧
+    checkUniqueNames [.directiveDef { name := "d", namePos := { line := 1 } },
+                      .directiveDef { name := "d", namePos := { line := 2 } }] =
+      [(.DuplicatedName, { line := 2 })] := by decide
+
 /-! ## input / output positions -/
 
 /-- In an accepted document no field of an object or interface type has an input object type. -/
@@ -192,10 +279,11 @@ theorem C05_sound_noSelfImplements (T : TsDoc) (h : checkSchema T = []) : Holds_
     exact fun hc => (implementsOfT_facts h ht i hi').1 hk hc.symm
   · left; exact hk
 
-/-- In an accepted document with unique type names, everything a type says it implements is an
+/-- In an accepted document (built-in-position type definitions pairwise distinct), everything a type says it implements is an
     interface type. -/
-theorem C05_sound_implementsInterfaces (T : TsDoc) (hu : uniqueTypeNames T = true)
+theorem C05_sound_implementsInterfaces (T : TsDoc) (hb : builtinTypeNamesDistinct T = true)
     (h : checkSchema T = []) : Holds_implementsInterfaces T := by
+  have hu := uniqueTypeNames_of_accepted h hb
   simp only [Holds_implementsInterfaces, implementsInterfaces, List.all_eq_true]
   intro t ht i hi
   obtain ⟨_, idef, hl, hk, _⟩ := implementsOfT_facts h ht i hi
@@ -203,9 +291,10 @@ theorem C05_sound_implementsInterfaces (T : TsDoc) (hu : uniqueTypeNames T = tru
   rw [kindOf_of_typeDef hl, hk]
   rfl
 
-/-- In an accepted document with unique type names, every member of a union is an object type. -/
-theorem C05_sound_unionMembersObjects (T : TsDoc) (hu : uniqueTypeNames T = true)
+/-- In an accepted document (built-in-position type definitions pairwise distinct), every member of a union is an object type. -/
+theorem C05_sound_unionMembersObjects (T : TsDoc) (hb : builtinTypeNamesDistinct T = true)
     (h : checkSchema T = []) : Holds_unionMembersObjects T := by
+  have hu := uniqueTypeNames_of_accepted h hb
   simp only [Holds_unionMembersObjects, unionMembersObjects, List.all_eq_true]
   intro t ht m hm
   obtain ⟨d, hl, hk⟩ := (membersOfT_facts h ht).1 m hm
@@ -213,12 +302,14 @@ theorem C05_sound_unionMembersObjects (T : TsDoc) (hu : uniqueTypeNames T = true
   rw [kindOf_of_typeDef hl, hk]
   rfl
 
-example : uniqueTypeNames sampleSchema = true ∧ checkSchema sampleSchema = [] := by decide
+example : builtinTypeNamesDistinct sampleSchema = true ∧ checkSchema sampleSchema = [] ∧
+    builtinTypeNamesDistinct sampleWithBuiltins = true ∧ checkSchema sampleWithBuiltins = [] := by decide
 
-/-- In an accepted document with unique type names, a type that implements an interface also declares
+/-- In an accepted document (built-in-position type definitions pairwise distinct), a type that implements an interface also declares
     every interface that interface implements. -/
-theorem C05_sound_transitiveInterfaces (T : TsDoc) (hu : uniqueTypeNames T = true)
+theorem C05_sound_transitiveInterfaces (T : TsDoc) (hb : builtinTypeNamesDistinct T = true)
     (h : checkSchema T = []) : Holds_transitiveInterfaces T := by
+  have hu := uniqueTypeNames_of_accepted h hb
   simp only [Holds_transitiveInterfaces, transitiveInterfaces, List.all_eq_true]
   intro t ht idef hidef j hj
   obtain ⟨hobj, _, _, hv⟩ := implementedIfaces_facts hu h ht idef hidef
@@ -227,10 +318,11 @@ theorem C05_sound_transitiveInterfaces (T : TsDoc) (hu : uniqueTypeNames T = tru
 
 /-! ## interface fields -/
 
-/-- In an accepted document with unique type names, a type has a field for every field of every
+/-- In an accepted document (built-in-position type definitions pairwise distinct), a type has a field for every field of every
     interface it implements. -/
-theorem C05_sound_ifaceFieldsPresent (T : TsDoc) (hu : uniqueTypeNames T = true)
+theorem C05_sound_ifaceFieldsPresent (T : TsDoc) (hb : builtinTypeNamesDistinct T = true)
     (h : checkSchema T = []) : Holds_ifaceFieldsPresent T := by
+  have hu := uniqueTypeNames_of_accepted h hb
   simp only [Holds_ifaceFieldsPresent, ifaceFieldsPresent, List.all_eq_true]
   intro t ht idef hidef impF hF
   obtain ⟨hobj, _, _, hv⟩ := implementedIfaces_facts hu h ht idef hidef
@@ -259,11 +351,12 @@ theorem implPairs_facts (T : TsDoc) (hu : uniqueTypeNames T = true) (h : checkSc
     exact List.mem_of_find?_eq_some hfind
   · simp [fieldsOfT, isObjOrIface, hkind, hF]
 
-/-- In an accepted document with unique type names, the field implementing an interface field accepts
+/-- In an accepted document (built-in-position type definitions pairwise distinct), the field implementing an interface field accepts
     every argument of the interface field with the same type, and its additional arguments are not
     required. -/
-theorem C05_sound_ifaceFieldArgs (T : TsDoc) (hu : uniqueTypeNames T = true)
+theorem C05_sound_ifaceFieldArgs (T : TsDoc) (hb : builtinTypeNamesDistinct T = true)
     (h : checkSchema T = []) : Holds_ifaceFieldArgs T := by
+  have hu := uniqueTypeNames_of_accepted h hb
   simp only [Holds_ifaceFieldArgs, ifaceFieldArgs, List.all_eq_true, Bool.and_eq_true, Bool.or_eq_true,
     Bool.not_eq_true']
   intro t ht p hp
@@ -284,10 +377,11 @@ theorem isSubtype_iff (S : Schema) (hI : ImplementsOk S) (a b : GType)
 example : ImplementsOk ⟨sampleSchema⟩ ∧ known ⟨sampleSchema⟩ "Query" = true :=
   ⟨implementsOk_of_accepted (by decide) (by decide), by decide⟩
 
-/-- In an accepted document with unique type names, the type of a field implementing an interface field
+/-- In an accepted document (built-in-position type definitions pairwise distinct), the type of a field implementing an interface field
     is equal to or a sub-type of (covariant with) the interface field's type. -/
-theorem C05_sound_ifaceFieldsCovariant (T : TsDoc) (hu : uniqueTypeNames T = true)
+theorem C05_sound_ifaceFieldsCovariant (T : TsDoc) (hb : builtinTypeNamesDistinct T = true)
     (h : checkSchema T = []) : Holds_ifaceFieldsCovariant T := by
+  have hu := uniqueTypeNames_of_accepted h hb
   simp only [Holds_ifaceFieldsCovariant, ifaceFieldsCovariant, List.all_eq_true]
   intro t ht p hp
   obtain ⟨hf, ⟨idef, hidef, hF⟩, _, _, hsub⟩ := implPairs_facts T hu h ht p hp
@@ -450,17 +544,21 @@ theorem directiveRec_iff (T : TsDoc) (d : DirectiveDef) (hd : d ∈ ValidTs.dire
 example : uniqueDirectiveNames nestedRecursionSchema = true ∧
     (nestedRecursionSchema.filterMap fun | .directiveDef d => some d.name | _ => none) = ["r"] := by decide
 
-/-- In an accepted document with unique directive names no directive definition reaches itself in the
+/-- In an accepted document (built-in-position directive definitions pairwise distinct and not re-declared, so
+    that directive names are unique: `C05_unique_directive_names_all`) no directive definition reaches itself in the
     reference graph the code explores. This is the recursion rule restricted to that graph; the rule of the
     specification also follows the types of input fields transitively, and for that graph the statement is
     false (`C05_sound_noRecursiveDirectives_counterexample`). -/
-theorem C05_sound_noRecursiveDirectives_partial (T : TsDoc) (hu : uniqueDirectiveNames T = true)
+theorem C05_sound_noRecursiveDirectives_partial (T : TsDoc) (hb : builtinDirectiveNamesDistinct T = true)
+    (hr : builtinDirectivesNotRedeclared T = true)
     (h : checkSchema T = []) : ∀ d ∈ ValidTs.directiveDefs T, ¬ Reaches T d.name d.name := by
+  have hu := uniqueDirectiveNames_of_accepted h hb hr
   intro d hd hreach
   have := (directiveDef_parts h hd).1
   exact (directiveRec_iff T d hd hu).mpr hreach this
 
-example : uniqueDirectiveNames sampleSchema = true ∧ checkSchema sampleSchema = [] := by decide
+example : builtinDirectiveNamesDistinct sampleSchema = true ∧ builtinDirectivesNotRedeclared sampleSchema = true ∧
+    checkSchema sampleSchema = [] := by decide
 
 /-
 Nothing of the C05 statement is left OPEN. Completeness (`C05_complete`) is in Props/C05Complete.lean.
